@@ -184,9 +184,9 @@ Proof.
 Qed.
 
 (* granted + combined filter true (in frame state sv)  ==>  some matching entry whose filter, if any, is true *)
-Lemma pm_granted_admit u perm pf sv o :
+Lemma pm_granted_allow u perm pf sv o :
   perm <> [] -> pm_check_permission u perm = Some pf -> pm_eval_opt pf sv o = PmT ->
-  pm_spec_admit_sv u perm sv o = true.
+  pm_spec_allow_sv u perm sv o = true.
 Proof.
   intros Hne Hc Hev. apply pm_check_some in Hc.
   destruct perm as [|c p]; [congruence|]. unfold pm_has_permission in Hc.
@@ -194,18 +194,18 @@ Proof.
   assert (fst (pm_hp_loop u req false None) = true) as Hf by (rewrite Hc; reflexivity).
   assert (snd (pm_hp_loop u req false None) = pf) as Hs by (rewrite Hc; reflexivity).
   rewrite pm_hp_loop_found in Hf. cbn [orb] in Hf.
-  unfold pm_spec_admit_sv. apply existsb_exists.
+  unfold pm_spec_allow_sv. apply existsb_exists.
   destruct pf as [g|].
   - cbn in Hev. destruct (pm_hp_loop_filter_true u req sv o _ _ _ Hs Hev) as [(g0 & Hg0 & _)|(e & f & Hin & Hm & Hfe & He)].
     + discriminate.
-    + exists e. split; [assumption|]. unfold pm_entry_admits. fold req. unfold pm_matches in Hm. rewrite Hm, Hfe, He. reflexivity.
+    + exists e. split; [assumption|]. unfold pm_entry_allows. fold req. unfold pm_matches in Hm. rewrite Hm, Hfe, He. reflexivity.
   - apply pm_hp_loop_filter_none in Hs. destruct Hs as [_ Hall].
     apply existsb_exists in Hf. destruct Hf as (e & Hin & Hm). exists e. split; [assumption|].
-    unfold pm_entry_admits. fold req. unfold pm_matches in Hm. rewrite Hm. rewrite (Hall e Hin Hm). reflexivity.
+    unfold pm_entry_allows. fold req. unfold pm_matches in Hm. rewrite Hm. rewrite (Hall e Hin Hm). reflexivity.
 Qed.
 
 (* ================================================================ GetFilterTargets: what every returned object satisfies *)
-(* R sv o: o is an inventory object the permission filter admitted in some frame state sv that is either
+(* R sv o: o is an inventory object the permission filter allowed in some frame state sv that is either
    clean or holds a service of the inventory *)
 Definition pm_svok (inv : list pm_obj) (sv : option pm_obj) : Prop :=
   sv = None \/ exists s, sv = Some s /\ In s inv /\ po_type s = PmService.
@@ -376,7 +376,7 @@ Proof.
 Qed.
 
 (* C18_only_permitted, general form (no hypothesis): every returned object is an inventory object that the
-   combined permission filter admitted - in a frame that is clean or holds a service of the inventory *)
+   combined permission filter allowed - in a frame that is clean or holds a service of the inventory *)
 Theorem pm_only_permitted_general fast u perm tys q inv objs c :
   pm_filter_targets fast u perm tys q inv = (c, PmOk objs) ->
   exists pf, pm_check_permission u perm = Some pf /\ forall o, In o objs -> pm_ret pf inv o.
@@ -690,11 +690,11 @@ End Paths.
 
 (* ================================================================ joins *)
 Theorem pm_join_only_permitted u o :
-  pm_join_visible u o = true -> pm_spec_admit u (pm_query_perm (po_type o)) o = true.
+  pm_join_visible u o = true -> pm_spec_allow u (pm_query_perm (po_type o)) o = true.
 Proof.
   unfold pm_join_visible. destruct (pm_has_permission u (pm_query_perm (po_type o))) as [granted pf] eqn:E.
   intros H. apply andb_prop in H. destruct H as [-> Ht].
-  apply (pm_granted_admit u (pm_query_perm (po_type o)) pf None o).
+  apply (pm_granted_allow u (pm_query_perm (po_type o)) pf None o).
   - destruct (po_type o); discriminate.
   - unfold pm_check_permission. rewrite E. reflexivity.
   - destruct (pm_eval_opt pf None o); [reflexivity|discriminate|discriminate].
@@ -715,7 +715,7 @@ Definition pm_ex_q (svc : option pm_str) : pm_query :=
      pq_filter := Some PmFTrue; pq_fvars := [] |}.
 
 Theorem pm_stale_refuted :
-  pm_spec_admit pm_ex_user pm_ex_perm pm_ex_w = false /\
+  pm_spec_allow pm_ex_user pm_ex_perm pm_ex_w = false /\
   snd (pm_filter_targets true pm_ex_user pm_ex_perm [PmHost; PmService] (pm_ex_q None) pm_ex_inv) = PmErr PmErrScript /\
   snd (pm_filter_targets true pm_ex_user pm_ex_perm [PmHost; PmService] (pm_ex_q (Some [104;33;112])) pm_ex_inv)
     = PmOk [pm_ex_s; pm_ex_h; pm_ex_w] /\
@@ -726,12 +726,12 @@ Proof. vm_compute. repeat split. Qed.
 Theorem pm_only_permitted fast u perm tys q inv objs c :
   perm <> [] -> pm_sig_stale tys q = false ->
   pm_filter_targets fast u perm tys q inv = (c, PmOk objs) ->
-  forall o, In o objs -> In o inv /\ pm_spec_admit u perm o = true.
+  forall o, In o objs -> In o inv /\ pm_spec_allow u perm o = true.
 Proof.
   intros Hne Hsig H o Ho.
   destruct (pm_only_permitted_clean _ _ _ _ _ _ _ _ Hsig H) as (pf & Hc & Hall).
   destruct (Hall o Ho) as [Hin Hev]. split; [assumption|].
-  exact (pm_granted_admit u perm pf None o Hne Hc Hev).
+  exact (pm_granted_allow u perm pf None o Hne Hc Hev).
 Qed.
 
 Theorem pm_paths_agree u perm inv o pf :
